@@ -330,6 +330,40 @@ example : ∃ R, reverse mcS (diff mcS true mcA mcB) = .ok R ∧
     mergeDiff { defaults := true } mcS (diff mcS true mcA mcB) R = .ok [] :=
   merge_cancel_diff (by decide +kernel) (by decide +kernel)
 
+/-! ## two families of triples for which the tree-level law `merge_apply` is proved -/
+
+/-- `A → B → B` (the second diff is empty): `mergeApply` gives `B` -/
+theorem merge_apply_second_empty (S : Schema) (o : MergeOpts) (fx : Fixes) (A B : List DNode) (hA : wfForest S A = true)
+    (hB : wfForest S B = true) (hk : KeysDistinguished S (A ++ B)) :
+    ∃ C', mergeApply S true o A B B fx = .ok C' ∧ dataEqL true C' B = true := by
+  obtain ⟨B', h1, _, h3, _⟩ := Diff.diff_chain_exact S fx A B B hA hB hB hk
+  have hself : diff S true B B = [] := by
+    have := diffFull_self S true B hB
+    simp [diff, this]
+  refine ⟨B', ?_, (dataEqL_iff_norm B' B).mpr h3⟩
+  simp [mergeApply, hself, mergeDiff, mergeKids_nil, Except.bind, applyD, h1]
+
+/-- `A → B → A` with the reversed diff as the second one: the merged diff is empty (`merge_cancel`) and applying it to `A`
+gives what the two diffs give one after the other (`reverse_apply_diff`) -/
+theorem merge_apply_reverse {S : Schema} {o : MergeOpts} {fx : Fixes} (K : KeyOrder S) {A B : List DNode}
+    (hA : wfForest S A = true) (hB : wfForest S B = true) :
+    ∃ B' R M C' A', apply S A (diff S true A B) fx = .ok B' ∧ reverse S (diff S true A B) = .ok R ∧
+      apply S B' R fx = .ok A' ∧ mergeDiff o S (diff S true A B) R = .ok M ∧ apply S A M fx = .ok C' ∧
+      dataEqL true C' A' = true := by
+  obtain ⟨B', R, A', h1, _, h2, _, h3, h4⟩ :=
+    reverse_roundtrip (fx := fx) K (goodT_of_wfForest S A hA) (exactDiff_diff S A B hA hB)
+  obtain ⟨R', hR', hM⟩ := merge_cancel_diff (o := o) hA hB
+  rw [h2] at hR'
+  have : R' = R := (Except.ok.inj hR').symm
+  subst this
+  refine ⟨B', R', [], A, A', h1, h2, h3, hM, rfl, ?_⟩
+  rw [dataEqL_iff_norm]
+  exact h4.symm
+
+example : ∃ C', mergeApply mcS true {} mcA mcB mcB = .ok C' ∧ dataEqL true C' mcB = true :=
+  merge_apply_second_empty mcS {} {} mcA mcB (by decide +kernel) (by decide +kernel)
+    (keysDistinguished_of_check _ _ (by decide +kernel))
+
 -- OPEN: `merge_apply_partial` — for good trees and exact diffs `D1` (for `A`, leading to `B`) and `D2` (for `B`, leading to `C`):
 --   ∃ M C', mergeDiff o S D1 D2 = .ok M ∧ apply S A M fx = .ok C' ∧ dataEqL true C' C = true.
 --   (`merge_cancel` at tree level is proved: above.)
